@@ -65,7 +65,14 @@ def _grid(x):
     return round(x / GRID) * GRID
 
 
-THR_SEP = math.degrees(2 * math.asin(math.sqrt(3.99) / 2))   # ~174.27 deg: |u-v|^2 = 3.99
+def thr_sep(thr):
+    """separation (degrees) at which |u-v|^2 equals the branch threshold of sphdist"""
+    return math.degrees(2 * math.asin(math.sqrt(min(4.0, max(0.0, thr))) / 2))
+
+
+# ~174.27 deg for the literal 3.99; run() replaces it by the value for the literal found in the source of the
+# tree under check, so that the `large` family always straddles the branch point that is actually coded
+BRANCH = {"sep": thr_sep(3.99)}
 
 
 def gen_pair(r, fam):
@@ -89,10 +96,11 @@ def gen_pair(r, fam):
     elif fam == "large":                      # the whole cross-product branch and its threshold
         a = _unif(r)
         k = r.random()
+        T = BRANCH["sep"]
         if k < 0.4:
-            sep = r.uniform(170.0, 180.0)
+            sep = r.uniform(min(170.0, T - 4.0), 180.0) if T >= 90.0 else r.uniform(max(0.0, T - 4.0), min(180.0, T + 10.0))
         elif k < 0.7:
-            sep = THR_SEP + r.choice([-1, 1]) * 10 ** r.uniform(-12, -1)
+            sep = min(180.0, max(0.0, T + r.choice([-1, 1]) * 10 ** r.uniform(-12, -0.3)))
         else:
             sep = 180.0 - 10 ** r.uniform(-9, 0.7)
         b = _offset(a[0], a[1], sep, r.uniform(0, 360))
@@ -360,7 +368,7 @@ def cert_lemma(item, with_model, prec=None, refute=False):
     return spec, "%s interval with (i_prec %d)." % (reduce_, prec)
 
 
-def certify(ctx, items, with_model, tag):
+def certify(ctx, items, with_model, tag, base=0):
     """compile one certificate per item; failures are retried at high precision together with the
     refutation lemma.  Returns the number of violations reported."""
     pre = PRE_CERT if with_model else PRE_CERT_SPEC
@@ -379,7 +387,7 @@ def certify(ctx, items, with_model, tag):
         for k, i in enumerate(redo):
             verdict[i] = (res2[2 * k][0], res2[2 * k + 1][0], res2[2 * k][1])
     for i, it in enumerate(items):
-        name = "cert:%s:%s/%s:%s#%d" % (it["fn"], it["uin"], it["uout"], it["family"], i)
+        name = "cert:%s:%s/%s:%s#%d" % (it["fn"], it["uin"], it["uout"], it["family"], base + i)
         ok = res[i][0] or verdict[i][0]
         ctx.obligation(name, ok, "" if ok else verdict[i][2])
         nontriv = it["pt"][0] != it["pt"][2] or it["pt"][1] != it["pt"][3]
@@ -488,6 +496,7 @@ def run(ctx, replay=None):
         consts, changed = c08_translate.regenerate(ctx.impl, core.COQDIR)
         ctx.obligation("Gen.v regenerated from esutil/coords.py (threshold %r, clip %r..%r)%s" % (
             consts["thr"], consts["lo"], consts["hi"], " [changed]" if changed else ""), True)
+        BRANCH["sep"] = thr_sep(consts["thr"])
     except c08_translate.TranslateError as e:
         gen_ok = False
         ctx.obligation("Gen.v regenerated from esutil/coords.py", False, str(e))
@@ -502,6 +511,7 @@ def run(ctx, replay=None):
             " [changed]" if changed else ""), True)
     except c08_translate.TranslateError as e:
         gen_ok = False
+        c08_translate.restore_last_good(core.COQDIR)     # the theorems then speak about the last translation that checked
         ctx.obligation("Src.v regenerated from esutil/coords.py", False, str(e))
         ctx.violation("translation of the source of sphdist/gcirc failed (the code no longer has a shape whose "
                       "element-wise reading is known): %s" % e,
@@ -511,6 +521,8 @@ def run(ctx, replay=None):
                       found_input=False)
     # 2. theorems
     proofs_ok = core.proof_step(ctx, "C08", core.ALLOW_INTERVAL)
+    if proofs_ok and gen_ok:
+        c08_translate.remember_good(core.COQDIR)
     if not proofs_ok:
         # the general theorems (Proofs.v) do not depend on the constants: keep searching for a failing
         # input with certificates stated against the specification only
@@ -539,6 +551,23 @@ def run(ctx, replay=None):
     # 5. certificates
     import time
     t0 = time.time()
-    items = cert_pool(entries, ctx, ctx.n(176, 4200))
-    certify(ctx, items, with_model, "cert")
+    # the pool is ordered (corpus pairs first, then round-robin over function x family x units); it is
+    # certified in batches until the pool or the tier's time budget is exhausted -- the first batch always runs
+    items = cert_pool(entries, ctx, ctx.n(200, 4200))
+    deadline = ctx.t0 + ctx.n(150, 1000)
+    done, k = 0, 0
+    while done < len(items):
+        now = time.time()
+        if done == 0:
+            n = min(len(items), ctx.n(64, 256))
+        else:
+            room = int((deadline - now) / ((now - t0) / done))
+            if room < 16:
+                break
+            n = min(len(items) - done, room, ctx.n(96, 1024))
+        certify(ctx, items[done:done + n], with_model, "cert%d" % k, base=done)
+        done += n
+        k += 1
+    ctx.count("cert:pool", len(items))
+    ctx.count("cert:not-attempted-time-budget", len(items) - done)
     ctx.count("wall_s:certificates", round(time.time() - t0, 1))
